@@ -663,8 +663,16 @@ class Executor:
         else:
             self.exec_block(st.orelse, env, mod)
 
+    def _note_unordered(self, v, node, mod):
+        # iterating a set of two or more elements in a `for` / comprehension: the order is an accident of hashing (for strings: of the hash seed).
+        # The model iterates in first-occurrence order; the event is logged so that a contract can demand that no result depends on such an order.
+        if isinstance(v, VList) and v.kind == 'set' and len(v.items) > 1:
+            self.ctx.log.append(('unordered-iteration', '%s:%d' % (mod.relpath, getattr(node, 'lineno', 0)), len(v.items)))
+
     def st_For(self, st, env, mod):
-        it = self.iterate(self.eval(st.iter, env, mod))
+        itv = self.eval(st.iter, env, mod)
+        self._note_unordered(itv, st, mod)
+        it = self.iterate(itv)
         if len(it) > self.max_unroll:
             raise Unsupported('loop of %d iterations' % len(it))
         broke = False
@@ -1897,7 +1905,10 @@ class Executor:
                     out.append(self.eval(e.elt, local, mod))
                 return
             g = e.generators[gi]
-            for v in self.iterate(self.eval(g.iter, local, mod)):
+            itv = self.eval(g.iter, local, mod)
+            if not isinstance(e, ast.SetComp):
+                self._note_unordered(itv, e, mod)
+            for v in self.iterate(itv):
                 self.assign(g.target, v, local, mod)
                 if all(self.truth(self.eval(c, local, mod)) for c in g.ifs):
                     rec(gi + 1)
@@ -2711,7 +2722,15 @@ class Executor:
             """set(iterable) of numbers / tuples of numbers: an element is dropped when it equals an earlier one (decided per path);
             iteration order is modelled as first-occurrence order (CPython's order is unspecified: only order-insensitive uses are sound)."""
             kept = []
-            for v in ex.iterate(x):
+            items_ = list(ex.iterate(x))
+            if items_ and all(isinstance(exact(v), str) for v in items_):
+                # concrete strings: duplicates dropped by equality, first-occurrence order (the real order depends on the hash seed: iteration is
+                # logged as 'unordered-iteration' by the for / comprehension that consumes the set)
+                for v in items_:
+                    if exact(v) not in [exact(w) for w in kept]:
+                        kept.append(v)
+                return VList(kept, 'set')
+            for v in items_:
                 tv = tuple(ex.iterate(v)) if isinstance(v, (tuple, list, VList)) else (v,)
                 if not all(is_scalar(exact(c)) for c in tv):
                     raise Unsupported('set() of non-numeric elements')
